@@ -247,11 +247,20 @@ def splice_v1(kind, reqf, reply, first):
     return ksi.tlv(0x0200 if kind == "aggr" else 0x0300, reqf["hdr"] + pl + reqf["mac"], long=True)
 
 
-def async_start(s, rng, ha, login, key):
+ASRC = {}
+
+
+def async_start(s, rng, ha, login, key, ext=False):
     s.cmd("CRED %s %s" % (login.hex(), key.hex()))
-    s.cmd("HANEW 2 4 10 10 10 10" if ha else "NEW 2 10 10 10 10")
+    s.cmd(("HANEW 2 4 10 10 10 10" if ha else "NEW 2 10 10 10 10") + (" x" if ext else ""))
     doc = ksi.imprint(1, b"c06a-%d" % rng.randrange(1 << 30))
-    out = s.cmd("ADD 1 %s 0" % doc.hex())
+    if ext:       # the extending service: a request for the calendar chain from the source signature's time to the head
+        if "src" not in ASRC:
+            ASRC["src"] = ksi.build_sig(rng, ksi.imprint(1, b"c06-asrc"), nchains=2, anchor="auth", kinds=("imprint", "legacy", "meta"))
+        doc = ASRC["src"]
+        out = s.cmd("ADDX 1 %d -" % doc.chains[0]["time"])
+    else:
+        out = s.cmd("ADD 1 %s 0" % doc.hex())
     if int(netsim.kv(out[-1])["rc"], 16) != 0:
         raise vlib.CheckError("async add failed: %s" % out)
     out = s.cmd("RUN")
@@ -396,12 +405,12 @@ def run(chk, tier, seed):
                         delivered, line = b.finish(fn(reply))
                     else:
                         blk.clear()
-                        doc, reqs = async_start(s, rng, tr == "ha", wire.LOGIN, wire.KEY)
+                        doc, reqs = async_start(s, rng, tr == "ha", wire.LOGIN, wire.KEY, ext=(kind == "ext"))
                         replies = {}; lab = None
                         stop = False
                         for ep, raw in sorted(reqs.items()):
                             rid = int.from_bytes(wire.request_fields(raw)["payload"].get(1, b""), "big")
-                            reply, regions = authentic(kind, random.Random(cseed), rid, dict(doc=doc, level=0), alg, dev)
+                            reply, regions = authentic(kind, random.Random(cseed), rid, (dict(src=doc, aggr=doc.chains[0]["time"]) if kind == "ext" else dict(doc=doc, level=0)), alg, dev)
                             if it is None:
                                 it = mutate(reply, regions); first = regions
                             if regions != first:
